@@ -222,6 +222,22 @@ theorem step_refines (it : Iter) (h : Inv it) (op : IOp) :
     simp only [step, Spec.step, hok, ga_bridge, Bool.true_and, if_true]
     exact ⟨by rw [(nextBack_refines _ hc2).1, hc1], (by trivial), h⟩
   | debug => simp only [step, Spec.step, hok, if_true, asSlice_eq]; exact ⟨(by trivial), (by trivial), h⟩
+  | foldSelf =>
+    simp only [step, Spec.step, foldItems, rangeOk, ga_bridge]
+    have hr : (decide (it.front ≤ it.back) && decide (it.back ≤ it.slots.length)) = true := by simp; exact h
+    simp only [hr, if_true]
+    exact ⟨rfl, sliceOf_empty _ _ _ (Nat.le_refl _), ⟨Nat.le_refl _, h.2⟩⟩
+  | rfoldSelf =>
+    simp only [step, Spec.step, rfoldItems, rangeOk, ga_bridge]
+    have hr : (decide (it.front ≤ it.back) && decide (it.back ≤ it.slots.length)) = true := by simp; exact h
+    simp only [hr, if_true]
+    exact ⟨rfl, sliceOf_empty _ _ _ (Nat.le_refl _), ⟨Nat.le_refl _, h.2⟩⟩
+  | countSelf =>
+    simp only [step, Spec.step, ga_bridge, Bridge.Iter.lenOk_of _ _ h.1, Bool.and_self, if_true]
+    exact ⟨by rw [hl], sliceOf_empty _ _ _ (Nat.le_refl _), ⟨Nat.le_refl _, h.2⟩⟩
+  | lastSelf =>
+    simp only [step, Spec.step, ga_bridge, if_true]
+    exact ⟨(nextBack_refines it h).1, sliceOf_empty _ _ _ (Nat.le_refl _), ⟨Nat.le_refl _, h.2⟩⟩
 
 theorem ofList_inv (l : List Nat) : Inv (Iter.ofList l) ∧ abs (Iter.ofList l) = l := by
   unfold Iter.ofList Inv abs
